@@ -39,7 +39,12 @@ func init() {
 	DeclareUF("b32ok", []Sort{SStr}, SBool, func(a *Term) []*Term {
 		s := a.Args[0]
 		d := App("b32dec", s)
-		return []*Term{Implies(a, And(PrefixOf(MkStr("jkl1"), s),
+		// a valid account string is alphanumeric: none of the separators the modules build keys and names with
+		sepFree := TTrue
+		for _, c := range []string{"/", ".", ",", " ", "-"} {
+			sepFree = And(sepFree, Not(Contains(s, MkStr(c))))
+		}
+		return []*Term{Implies(a, And(PrefixOf(MkStr("jkl1"), s), sepFree,
 			Or(And(Eq(Len(s), MkI(42)), Eq(Len(d), MkI(20))), And(Eq(Len(s), MkI(62)), Eq(Len(d), MkI(32))))))}
 	})
 	DeclareUF("b32dec", []Sort{SStr}, SStr, nil)
